@@ -1408,6 +1408,12 @@ Proof.
   rewrite (map_nth_error _ _ _ Hc). reflexivity.
 Qed.
 
+Lemma all_some_length {A} (l : list (option A)) : forall r, all_some l = Some r -> length r = length l.
+Proof.
+  induction l as [|[x|] t IH]; intros r H; cbn [all_some] in H; [inversion H; reflexivity| |discriminate].
+  destruct (all_some t) as [r'|]; cbn in H; [|discriminate]. inversion H. cbn [length]. f_equal. now apply IH.
+Qed.
+
 (** C07 theorem 5 (guarded form): merge_coolers either fails or stores, for every pixel, the row of per-column
     aggregates of that pixel's values over the inputs (in the model's machine arithmetic: sums accumulate in
     int64), and every stored value lies in the range of its output dtype.  With [agg_col_sum_exact]: a stored
@@ -1429,15 +1435,11 @@ Proof.
   apply merge_coolers_unfold in E. destruct E as (c0 & rest & poss & ob & m & -> & Ep & Hl & Em & E1 & E2 & E3 & E4).
   cbn [hd] in *. set (inputs := c0 :: rest) in *.
   set (projected := map (fun cp => project (fst cp) (snd cp)) (combine inputs poss)) in *.
-  assert (Lp : length poss = length inputs).
-  { clear -Ep. revert poss Ep. induction inputs as [|a t IH]; intros poss Ep; cbn in Ep.
-    - inversion Ep. reflexivity.
-    - destruct (all_some (map (col_pos (c_cols a)) _)); [|discriminate]. destruct (all_some _) as [r|] eqn:Er; [|discriminate].
-      cbn in Ep. inversion Ep. cbn [length]. f_equal. symmetry. now apply IH. }
+  assert (Lp : length poss = length inputs) by (apply all_some_length in Ep; now rewrite map_length in Ep).
   assert (PV : Forall (ValidIn (c_nbins c0)) projected).
   { subst projected. rewrite Forall_map. apply Forall_forall. intros [ci ps] Hin. cbn [fst snd].
     apply project_valid. apply in_combine_l in Hin. rewrite Forall_forall in HV. apply (HV ci Hin). }
-  pose proof (merge_pass_checked (c_nbins c0) _ (fits_row ob) (agg_row (mc_ops columns aggs)) projected buf Hn Hb PV) as MP.
+  pose proof (merge_pass_checked (c_nbins c0) {| o_bounds := true; o_triu := c_symm c0; o_dup := true; o_sort := false |} (fits_row ob) (agg_row (mc_ops columns aggs)) projected buf Hn Hb PV) as MP.
   rewrite Em in MP. destruct MP as (MP1 & MP2). exists projected. split; [|split].
   - subst projected. clear -Lp. revert poss Lp. induction inputs as [|a t IH]; intros [|p ps] Lp; cbn in Lp; try discriminate; cbn [combine map]; constructor.
     + unfold project. cbn [mc_px mc_off fst snd]. rewrite map_map. cbn [fst]. split; reflexivity.
@@ -1445,4 +1447,387 @@ Proof.
   - now rewrite E1.
   - intros k row Hin. rewrite E1 in Hin. destruct (MP2 k row Hin) as (A & B). split; [exact A|].
     rewrite E3, map_snd_combine by (symmetry; exact Hl). exact B.
+Qed.
+
+(* ================================================================== J. no spurious failure of an unordered ingestion *)
+Section Total.
+Context {V : Type}.
+Notation recd := (key * V)%type.
+Variables (n : nat) (o : copts) (agg : list V -> V).
+
+(** what the validator demands of a key under the options in force *)
+Definition KeyOK (k : key) : Prop :=
+  (o_bounds o = true -> 0 <= fst k < Z.of_nat n /\ 0 <= snd k < Z.of_nat n) /\
+  (o_triu o = true -> fst k <= snd k).
+
+Lemma existsb_false_forall {A} (f : A -> bool) l : existsb f l = false <-> Forall (fun x => f x = false) l.
+Proof.
+  induction l as [|x l IH]; cbn [existsb]; [split; [constructor|reflexivity]|].
+  rewrite orb_false_iff, IH. split; [intros (A1 & A2); constructor; assumption|intros H; inversion H; auto].
+Qed.
+
+Lemma validate_total (ch : list recd) :
+  Forall (fun p => KeyOK (fst p)) ch -> (o_dup o = true -> has_dup ch = false) ->
+  exists ch', validate_pixels (Z.of_nat n) (o_bounds o) (o_triu o) (o_dup o) (o_sort o) ch = Ok ch'.
+Proof.
+  intros HK HD. unfold validate_pixels.
+  assert (B1 : o_bounds o && existsb (fun p : Z * Z * V => (fst (fst p) <? 0) || (snd (fst p) <? 0)) ch = false).
+  { destruct (o_bounds o) eqn:Eb; [|reflexivity]. cbn [andb]. apply existsb_false_forall.
+    eapply Forall_impl; [|exact HK]. intros p (Hb & _). specialize (Hb Eb). unfold key in *. lia. }
+  assert (B2 : o_bounds o && existsb (fun p : Z * Z * V => (Z.of_nat n <=? fst (fst p)) || (Z.of_nat n <=? snd (fst p))) ch = false).
+  { destruct (o_bounds o) eqn:Eb; [|reflexivity]. cbn [andb]. apply existsb_false_forall.
+    eapply Forall_impl; [|exact HK]. intros p (Hb & _). specialize (Hb Eb). unfold key in *. lia. }
+  assert (B3 : o_triu o && existsb (fun p : Z * Z * V => snd (fst p) <? fst (fst p)) ch = false).
+  { destruct (o_triu o) eqn:Eb; [|reflexivity]. cbn [andb]. apply existsb_false_forall.
+    eapply Forall_impl; [|exact HK]. intros p (_ & Ht). specialize (Ht Eb). unfold key in *. lia. }
+  assert (B4 : o_dup o && has_dup ch = false) by (destruct (o_dup o); [cbn; now apply HD|reflexivity]).
+  rewrite B1, B2, B3, B4. eexists; reflexivity.
+Qed.
+
+Lemma validate_keyok (ch ch' : list recd) :
+  validate_pixels (Z.of_nat n) (o_bounds o) (o_triu o) (o_dup o) (o_sort o) ch = Ok ch' ->
+  Forall (fun p => KeyOK (fst p)) ch.
+Proof.
+  unfold validate_pixels.
+  destruct (o_bounds o && existsb (fun p : Z * Z * V => (fst (fst p) <? 0) || (snd (fst p) <? 0)) ch) eqn:B1; [discriminate|].
+  destruct (o_bounds o && existsb (fun p : Z * Z * V => (Z.of_nat n <=? fst (fst p)) || (Z.of_nat n <=? snd (fst p))) ch) eqn:B2; [discriminate|].
+  destruct (o_triu o && existsb (fun p : Z * Z * V => snd (fst p) <? fst (fst p)) ch) eqn:B3; [discriminate|]. intros _.
+  apply Forall_forall. intros p Hp. split.
+  - intro Eb. rewrite Eb in B1, B2. cbn [andb] in B1, B2. rewrite existsb_false_forall, Forall_forall in B1, B2.
+    specialize (B1 p Hp). specialize (B2 p Hp). cbn beta in *. unfold key in *. lia.
+  - intro Et. rewrite Et in B3. cbn [andb] in B3. rewrite existsb_false_forall, Forall_forall in B3.
+    specialize (B3 p Hp). cbn beta in *. unfold key in *. lia.
+Qed.
+
+Lemma has_dup_sorted (e : list recd) : StronglySorted klt (map fst e) -> has_dup e = false.
+Proof.
+  induction e as [|p t IH]; cbn [map has_dup]; intro H; [reflexivity|]. inversion H as [|? ? Ht HF]; subst.
+  rewrite (IH Ht), orb_false_r. apply existsb_false_forall. rewrite Forall_map in HF.
+  eapply Forall_impl; [|exact HF]. intros q Hq. apply keqb_neq. intros E. rewrite E in Hq. now apply (klt_irrefl (fst q)).
+Qed.
+
+Lemma check_chunk_total (ch : list recd) :
+  Forall (fun p => KeyOK (fst p)) ch -> (o_dup o = true -> has_dup ch = false) ->
+  exists ch', check_chunk (Z.of_nat n) o (fun _ => true) ch = Ok ch'.
+Proof.
+  intros HK HD. unfold check_chunk. destruct (validate_total ch HK HD) as (ch' & ->). cbn [bind].
+  replace (forallb (fun _ : recd => true) ch') with true; [eexists; reflexivity|].
+  symmetry. apply forallb_forall. reflexivity.
+Qed.
+
+Lemma in_concat_keys (eps : list (list recd)) e p : In e eps -> In p e -> In (fst p) (map fst (concat eps)).
+Proof. intros He Hp. apply in_map. apply in_concat. exists e. auto. Qed.
+
+Lemma merge_g_nonempty n' o' vc (agg' : list V -> V) (inputs : list (mcool V)) buf : inputs <> [] ->
+  merge_g n' o' vc agg' inputs buf = bind (cooler_merger agg' inputs buf) (create_g n' o' vc).
+Proof. destruct inputs; [contradiction|reflexivity]. Qed.
+
+(** a merge pass over valid inputs whose keys satisfy the validator cannot fail *)
+Lemma merge_g_total (inputs : list (mcool V)) buf :
+  (1 <= n)%nat -> 0 <= buf -> inputs <> [] -> Forall (ValidIn n) inputs ->
+  Forall (fun p => KeyOK (fst p)) (allpx inputs) ->
+  merge_g n o (fun _ => true) agg inputs buf = Ok (mk_cool n (groupby_agg agg (allpx inputs))).
+Proof.
+  intros Hn Hb Hne HV HK.
+  assert (T : exists m, merge_g n o (fun _ => true) agg inputs buf = Ok m).
+  { rewrite (merge_g_nonempty n o (fun _ => true) agg inputs buf Hne).
+    destruct (merger_exact agg n inputs buf Hne Hn HV Hb) as (eps & E & Ec & _).
+    rewrite E. cbn [bind]. unfold create_g.
+    assert (S1 : Forall (fun e => StronglySorted klt (map fst e)) eps).
+    { unfold cooler_merger in E. destruct (merge_breakpoints_auto _ _); cbn [bind] in E; [|discriminate]. inversion E. apply merger_epochs_sorted. }
+    destruct (mapM_total (check_chunk (Z.of_nat n) o (fun _ => true)) eps) as (cs & Ecs).
+    { apply Forall_forall. intros e He. apply check_chunk_total.
+      - apply Forall_forall. intros p Hp. pose proof (in_concat_keys eps e p He Hp) as Hk.
+        rewrite Ec in Hk. apply groupby_agg_keys in Hk. apply in_map_iff in Hk. destruct Hk as (q & Eq & Hq).
+        rewrite Forall_forall in HK. rewrite <- Eq. now apply HK.
+      - intros _. apply has_dup_sorted. rewrite Forall_forall in S1. now apply S1. }
+    rewrite Ecs. cbn [bind]. eexists; reflexivity. }
+  destruct T as (m & Em). pose proof Em as Em'. apply merge_g_exact in Em'; auto. destruct Em' as (_ & ->). exact Em.
+Qed.
+End Total.
+
+Section Total2.
+Context {V : Type}.
+Notation recd := (key * V)%type.
+Variables (n : nat) (o : copts) (agg : list V -> V).
+Notation KOK := (fun p : recd => KeyOK n o (fst p)).
+
+Lemma groupby_keyok (l : list recd) : Forall KOK l -> Forall KOK (groupby_agg agg l).
+Proof.
+  intros H. rewrite Forall_forall in *. intros [k v] Hin.
+  assert (Hk : In k (map fst l)). { apply (groupby_agg_keys agg l k). apply in_map_iff. exists (k, v). auto. }
+  apply in_map_iff in Hk. destruct Hk as (q & E & Hq). specialize (H q Hq). cbn [fst] in *. rewrite <- E. exact H.
+Qed.
+Lemma allpx_forall (P : recd -> Prop) (l : list (mcool V)) : Forall (fun t => Forall P (mc_px t)) l -> Forall P (allpx l).
+Proof. intros H. unfold allpx. apply Forall_concat. now rewrite Forall_map. Qed.
+
+Lemma nslice_nonempty {A} (l : list A) lo hi : (lo < hi <= length l)%nat -> nslice l lo hi <> [].
+Proof.
+  intros H E. apply (f_equal (@length A)) in E. unfold nslice in E. rewrite firstn_length, skipn_length in E. cbn in E. lia.
+Qed.
+
+(** C06: an unordered ingestion of at least one chunk cannot fail in the merge machinery (no exhausted
+    fuel, no IndexError -- defect D9 --, no rejected merge epoch -- defect D16 --), for every mergebuf >= 0,
+    single pass or any admissible edge list, provided each input chunk itself is acceptable to the
+    validator (keys in range / upper-triangular / duplicate-free as far as the options demand) and sorted
+    by bin1_id or sorting is requested.  The dtype range check is taken out of the picture (vcheck = true):
+    value overflow is property C07's subject. *)
+Theorem unordered_total (chunks : list (list recd)) buf edges :
+  (1 <= n)%nat -> 0 <= buf -> chunks <> [] ->
+  Forall (fun ch => Forall KOK ch /\ (o_dup o = true -> has_dup ch = false) /\
+                    (o_sort o = true \/ RowSorted ch) /\ Forall (fun p => 0 <= rowof p < Z.of_nat n) ch) chunks ->
+  match edges with Some e => Admissible (length chunks) e | None => True end ->
+  exists m, unordered_g n o (fun _ => true) agg chunks buf edges = Ok m.
+Proof.
+  intros Hn Hb Hne HC HE. unfold unordered_g.
+  destruct (mapM_total (fun ch => create_g n o (fun _ => true) [ch]) chunks) as (temps & E1).
+  { eapply Forall_impl; [|exact HC]. intros ch (HK & HD & _). unfold create_g. cbn [mapM].
+    destruct (check_chunk_total n o ch HK HD) as (ch' & ->). cbn [bind]. eexists; reflexivity. }
+  rewrite E1. cbn [bind]. pose proof (mapM_ok _ _ _ E1) as F1.
+  assert (T : Forall2 (fun ch t => ValidIn n t /\ Permutation ch (mc_px t)) chunks temps).
+  { eapply forall2_impl; [|exact F1]. intros ch t Hin Hc. cbn beta in Hc.
+    rewrite Forall_forall in HC. destruct (HC ch Hin) as (_ & _ & Hs & Hr).
+    apply create_g_ok in Hc. destruct Hc as (cs & F & ->).
+    inversion F as [|? ch' ? ? Hch F']; subst. inversion F'; subst. cbn [concat mk_cool mc_px]. rewrite app_nil_r.
+    apply check_chunk_ok in Hch.
+    assert (HP : Permutation ch ch') by (rewrite Hch; destruct (o_sort o); [apply sort_values_perm|reflexivity]).
+    split; [|exact HP]. constructor; cbn [mc_off mc_px]; [reflexivity| |eapply Permutation_Forall; eauto].
+    destruct (o_sort o) eqn:Es; rewrite Hch; [apply ws_rowsorted, sort_values_ws|]. destruct Hs; [discriminate|assumption]. }
+  assert (TV : Forall (ValidIn n) temps).
+  { clear -T. induction T as [|? ? ? ? (Hv & _) _ IH]; constructor; assumption. }
+  assert (TK : Forall (fun t => Forall KOK (mc_px t)) temps).
+  { clear -T HC. induction T as [|ch t ? ? (_ & Hp) _ IH]; constructor.
+    - inversion HC as [|? ? (HK & _) _]; subst. eapply Permutation_Forall; eauto.
+    - apply IH. inversion HC; assumption. }
+  assert (TL : length temps = length chunks) by (symmetry; eapply forall2_length; exact F1).
+  assert (Tne : temps <> []) by (intros ->; destruct chunks; [contradiction|discriminate]).
+  destruct edges as [e|].
+  - destruct HE as (H0 & Hl & HS).
+    destruct e as [|a rest]; [cbn in H0; lia|]. cbn [hd] in H0. subst a.
+    assert (Hlast : last rest O = length chunks) by (rewrite <- Hl; symmetry; apply last_cons_default).
+    pose proof (pairs_bounds rest O (length temps) HS ltac:(lia)) as PB.
+    destruct (mapM_total (fun lh => merge_g n o (fun _ => true) agg (nslice temps (fst lh) (snd lh)) buf) (pairs (O :: rest))) as (finals & E2).
+    { eapply Forall_impl; [|exact PB]. intros lh Hlh. eexists. apply merge_g_total; auto.
+      - now apply nslice_nonempty.
+      - now apply forall_nslice.
+      - apply allpx_forall. now apply forall_nslice. }
+    rewrite E2. cbn [bind]. pose proof (mapM_ok _ _ _ E2) as F2.
+    assert (F2' : Forall2 (fun lh f => f = mk_cool n (groupby_agg agg (allpx (nslice temps (fst lh) (snd lh))))) (pairs (O :: rest)) finals).
+    { eapply forall2_impl; [|exact F2]. intros lh f _ Hm. cbn beta in Hm.
+      apply merge_g_exact in Hm; [tauto|assumption|assumption|]. now apply forall_nslice. }
+    apply forall2_map in F2'.
+    eexists. apply merge_g_total; auto.
+    + rewrite F2'. destruct rest as [|b rest']; [|discriminate].
+      cbn in Hlast. destruct chunks; [contradiction|cbn in Hlast; lia].
+    + rewrite F2'. rewrite Forall_map. apply Forall_forall. intros lh _. apply valid_merged. now apply forall_nslice.
+    + apply allpx_forall. rewrite F2'. rewrite Forall_map. apply Forall_forall. intros lh _. cbn [mc_px mk_cool].
+      apply groupby_keyok. apply allpx_forall. now apply forall_nslice.
+  - cbn [bind]. eexists. apply merge_g_total; auto. now apply allpx_forall.
+Qed.
+End Total2.
+
+(** C06, total form for counts: the ingestion succeeds and stores the in-memory aggregate *)
+Corollary unordered_correct n o (chunks : list (list pixel)) buf edges :
+  (1 <= n)%nat -> 0 <= buf -> chunks <> [] ->
+  Forall (fun ch => Forall (fun p => KeyOK n o (fst p)) ch /\ (o_dup o = true -> has_dup ch = false) /\
+                    (o_sort o = true \/ RowSorted ch) /\ Forall (fun p => 0 <= rowof p < Z.of_nat n) ch) chunks ->
+  match edges with Some e => Admissible (length chunks) e | None => True end ->
+  unordered_g n o (fun _ => true) sumZ chunks buf edges = Ok (mk_cool n (aggregate (concat chunks))).
+Proof.
+  intros Hn Hb Hne HC HE. destruct (unordered_total n o sumZ chunks buf edges Hn Hb Hne HC HE) as (m & Em).
+  rewrite Em. f_equal. rewrite <- groupby_sum_aggregate.
+  apply (unordered_exact n o (fun _ => true) sumZ sum_perm sum_two_level chunks buf edges m Hn Hb); auto.
+  eapply Forall_impl; [|exact HC]. cbn. tauto.
+Qed.
+
+(* ================================================================== K. aggregation functions other than the plain sum *)
+Section AggLaws.
+Context {V : Type}.
+Notation recd := (key * V)%type.
+Variable agg : list V -> V.
+
+(** equal key sets and key-wise equal aggregates give equal group-by results *)
+Lemma groupby_agg_rel (l l' : list recd) :
+  (forall k, In k (map fst l) <-> In k (map fst l')) ->
+  (forall k, In k (map fst l) -> agg (vals l k) = agg (vals l' k)) ->
+  groupby_agg agg l = groupby_agg agg l'.
+Proof.
+  intros HK HV. unfold groupby_agg.
+  destruct (group_canon l) as (S1 & K1 & L1). destruct (group_canon l') as (S2 & K2 & L2).
+  assert (F : Forall2 (fun e1 e2 : key * list V => fst e1 = fst e2 /\ agg (snd e1) = agg (snd e2)) (group l) (group l')).
+  { apply (gsorted_rel (fun vs vs' => agg vs = agg vs')); auto.
+    - intro k. rewrite K1, K2. apply HK.
+    - intros k Hk. rewrite L1, L2. apply HV. now apply K1. }
+  clear S1 K1 L1 S2 K2 L2. induction F as [|[a b] [c d] t1 t2 (E1 & E2) _ IH]; [reflexivity|]. cbn [map fst snd] in *. now rewrite E1, E2, IH.
+Qed.
+
+Lemma vals_perm (l l' : list recd) k : Permutation l l' -> Permutation (vals l k) (vals l' k).
+Proof.
+  induction 1 as [|p l l' _ IH|p q l|l l' l'' _ IH1 _ IH2].
+  - reflexivity.
+  - rewrite !vals_cons. now apply Permutation_app_head.
+  - rewrite !vals_cons, !app_assoc. apply Permutation_app_tail. apply Permutation_app_comm.
+  - eapply Permutation_trans; eauto.
+Qed.
+
+Hypothesis agg_perm_inv : forall vs vs', Permutation vs vs' -> agg vs = agg vs'.
+
+(** order independence for any permutation-invariant aggregation *)
+Lemma groupby_agg_perm (l l' : list recd) : Permutation l l' -> groupby_agg agg l = groupby_agg agg l'.
+Proof.
+  intros HP. apply groupby_agg_rel.
+  - intro k. split; apply Permutation_in; [|symmetry]; now apply Permutation_map.
+  - intros k _. apply agg_perm_inv. now apply vals_perm.
+Qed.
+
+Lemma vals_sorted_unique (out : list recd) k v : StronglySorted klt (map fst out) -> In (k, v) out -> vals out k = [v].
+Proof.
+  induction out as [|[k0 v0] t IH]; intros HS Hin; [contradiction|]. cbn [map fst] in HS. inversion HS as [|? ? HSt HF]; subst.
+  rewrite vals_cons. cbn [fst snd]. rewrite Forall_forall in HF. destruct Hin as [E|Hin].
+  - inversion E; subst. rewrite keqb_refl, vals_notin; [reflexivity|]. intro X. apply (klt_irrefl k). now apply HF.
+  - assert (Hk : In k (map fst t)) by (apply in_map_iff; exists (k, v); auto).
+    assert (keqb k0 k = false) as -> by (apply keqb_neq; intros ->; apply (klt_irrefl k); now apply HF).
+    cbn [app]. now apply IH.
+Qed.
+Lemma vals_groupby (G : list recd) k :
+  vals (groupby_agg agg G) k = match vals G k with [] => [] | _ => [agg (vals G k)] end.
+Proof.
+  destruct (in_dec key_eq_dec k (map fst G)) as [Hin|Hnin].
+  - assert (Hin' : In k (map fst (groupby_agg agg G))) by now apply groupby_agg_keys.
+    apply in_map_iff in Hin'. destruct Hin' as ([k' v] & E & Hp). cbn [fst] in E. subst k'.
+    rewrite (vals_sorted_unique _ k v (groupby_agg_sorted agg G) Hp).
+    apply groupby_agg_value in Hp. subst v. pose proof (vals_in G k Hin). destruct (vals G k); [contradiction|reflexivity].
+  - rewrite (vals_notin G k Hnin). apply vals_notin. intro X. apply Hnin. now apply (groupby_agg_keys agg G k).
+Qed.
+
+(** compatibility with a two-level merge: aggregating the per-group aggregates of the non-empty groups
+    equals aggregating everything *)
+Hypothesis agg_decomp : forall xss : list (list V),
+  agg (concat (map (fun xs => match xs with [] => [] | _ => [agg xs] end) xss)) = agg (concat xss).
+
+Lemma vals_concat (Gs : list (list recd)) k : vals (concat Gs) k = concat (map (fun G => vals G k) Gs).
+Proof. induction Gs as [|G t IH]; [reflexivity|]. cbn [concat map]. now rewrite vals_app, IH. Qed.
+
+Lemma groupby_agg_two_level (Gs : list (list recd)) :
+  groupby_agg agg (concat (map (groupby_agg agg) Gs)) = groupby_agg agg (concat Gs).
+Proof.
+  apply groupby_agg_rel.
+  - intro k. rewrite !concat_map, !in_concat. split.
+    + intros (ks & H1 & H2). rewrite map_map in H1. apply in_map_iff in H1. destruct H1 as (G & <- & HG).
+      apply groupby_agg_keys in H2. exists (map fst G). split; [now apply in_map|exact H2].
+    + intros (ks & H1 & H2). apply in_map_iff in H1. destruct H1 as (G & <- & HG).
+      exists (map fst (groupby_agg agg G)). split; [rewrite map_map; apply in_map_iff; exists G; auto|now apply groupby_agg_keys].
+  - intros k _. rewrite !vals_concat, map_map.
+    rewrite (map_ext _ (fun G => match vals G k with [] => [] | _ => [agg (vals G k)] end)) by (intro; apply vals_groupby).
+    rewrite <- (map_map (fun G => vals G k) (fun xs => match xs with [] => [] | _ => [agg xs] end)). apply agg_decomp.
+Qed.
+End AggLaws.
+
+(* ================================================================== L. the executable multi-column model: rows of int64 sums *)
+
+Lemma sumZ_perm l l' : Permutation l l' -> sumZ l = sumZ l'.
+Proof. induction 1; rewrite ?sumZ_cons; try lia. Qed.
+
+Lemma wrap64_mod x : wrap64 x mod 2 ^ 64 = x mod 2 ^ 64.
+Proof.
+  unfold wrap64. rewrite Zminus_mod, Zmod_mod, <- Zminus_mod. f_equal. lia.
+Qed.
+Lemma wrap64_congr a b : a mod 2 ^ 64 = b mod 2 ^ 64 -> wrap64 a = wrap64 b.
+Proof. intro H. unfold wrap64. rewrite (Zplus_mod a), (Zplus_mod b), H. reflexivity. Qed.
+Lemma wrap64_add a b : wrap64 (wrap64 a + b) = wrap64 (a + b).
+Proof. apply wrap64_congr. rewrite Zplus_mod, wrap64_mod, <- Zplus_mod. reflexivity. Qed.
+Lemma wrap64_add_r a b : wrap64 (a + wrap64 b) = wrap64 (a + b).
+Proof. rewrite Z.add_comm, wrap64_add. f_equal. lia. Qed.
+
+(** column level: summing the int64 sums of the non-empty groups = the int64 sum of everything *)
+Lemma sum_col_decomp (yss : list (list Z)) :
+  agg_col ASum (concat (map (fun ys => match ys with [] => [] | _ => [agg_col ASum ys] end) yss))
+  = agg_col ASum (concat yss).
+Proof.
+  cbn [agg_col]. induction yss as [|ys t IH]; [reflexivity|]. cbn [map concat]. rewrite !sumZ_app.
+  destruct ys as [|y ys'].
+  - cbn [app]. change (sumZ []) with 0. rewrite !Z.add_0_l. exact IH.
+  - set (s := sumZ (y :: ys')) in *. cbn [app]. rewrite sumZ_cons. change (sumZ []) with 0. rewrite Z.add_0_r.
+    rewrite <- wrap64_add_r, IH, wrap64_add_r, wrap64_add. reflexivity.
+Qed.
+
+Definition sum_ops {A} (cols : list A) : list aggop := map (fun _ => ASum) cols.
+
+Lemma in_combine_seq {A} (ops : list A) : forall s j op,
+  In (j, op) (combine (seq s (length ops)) ops) -> (s <= j)%nat /\ nth_error ops (j - s) = Some op.
+Proof.
+  induction ops as [|a ops IH]; intros s j op Hin; [contradiction|].
+  cbn [length seq combine] in Hin. destruct Hin as [E|Hin].
+  - inversion E; subst. split; [lia|]. now rewrite Nat.sub_diag.
+  - destruct (IH (S s) j op Hin) as (H1 & H2). split; [lia|].
+    replace (j - s)%nat with (S (j - S s)) by lia. exact H2.
+Qed.
+Lemma agg_row_ext ops X Y :
+  (forall j op, nth_error ops j = Some op ->
+     agg_col op (map (fun r => nth j r 0) X) = agg_col op (map (fun r => nth j r 0) Y)) ->
+  agg_row ops X = agg_row ops Y.
+Proof.
+  intro H. unfold agg_row. apply map_ext_in. intros [j op] Hin. cbn [fst snd]. apply H.
+  apply in_combine_seq in Hin. destruct Hin as (_ & Hn). now rewrite Nat.sub_0_r in Hn.
+Qed.
+
+Lemma sum_ops_nth {A} (cols : list A) j op : nth_error (sum_ops cols) j = Some op -> op = ASum.
+Proof.
+  unfold sum_ops. intro H. apply nth_error_In in H. apply in_map_iff in H. destruct H as (? & E & _). now symmetry.
+Qed.
+
+(** rows of int64 sums are insensitive to the order of the records ... *)
+Lemma sum_rows_perm {A} (cols : list A) (rows rows' : list (list Z)) :
+  Permutation rows rows' -> agg_row (sum_ops cols) rows = agg_row (sum_ops cols) rows'.
+Proof.
+  intro HP. apply agg_row_ext. intros j op Hop. apply sum_ops_nth in Hop. subst op. cbn [agg_col]. f_equal.
+  apply sumZ_perm. now apply Permutation_map.
+Qed.
+(** ... and compatible with a two-level merge *)
+Lemma sum_rows_decomp {A} (cols : list A) (xss : list (list (list Z))) :
+  agg_row (sum_ops cols) (concat (map (fun xs => match xs with [] => [] | _ => [agg_row (sum_ops cols) xs] end) xss))
+  = agg_row (sum_ops cols) (concat xss).
+Proof.
+  apply agg_row_ext. intros j op Hop. pose proof (sum_ops_nth cols j op Hop) as ->.
+  rewrite !concat_map. rewrite <- (sum_col_decomp (map (map (fun r => nth j r 0)) xss)). f_equal.
+  rewrite !map_map. f_equal. apply map_ext. intros [|x xs]; [reflexivity|].
+  cbn [map]. f_equal. apply (agg_row_nth (sum_ops cols) (x :: xs) j ASum Hop).
+Qed.
+
+(** C06 for the executable model: whenever create_from_unordered (all requested integer columns, int64
+    accumulation, dtype range checks, validation options) succeeds on chunks that are sorted by bin1_id (or
+    with ensure_sorted) and in range, the stored table is the group-by of ALL records with int64 row sums,
+    whatever the chunking, mergebuf and max_merge *)
+Theorem create_from_unordered_exact names bins symm cols bc tc dc es chunks buf mm c :
+  (1 <= length bins)%nat -> 0 <= buf -> chunks <> [] ->
+  Forall (fun ch => (es = true \/ RowSorted ch) /\ Forall (fun p => 0 <= rowof p < Z.of_nat (length bins)) ch) chunks ->
+  create_from_unordered names bins symm cols bc tc dc es chunks buf mm = Ok c ->
+  c_px c = groupby_agg (agg_row (sum_ops cols)) (concat chunks) /\
+  c_off c = index_of (length bins) (c_px c) /\ c_bins c = bins /\ c_symm c = symm /\ c_cols c = cols.
+Proof.
+  intros Hn Hb Hne HC H. unfold create_from_unordered in H.
+  destruct (unordered_g _ _ _ _ _ _ _) as [m|e] eqn:E; cbn [bind] in H; [|discriminate].
+  inversion H; subst c. cbn [c_px c_off c_bins c_symm c_cols].
+  fold (sum_ops cols) in E.
+  apply (unordered_exact (length bins) _ _ (agg_row (sum_ops cols))) in E; auto.
+  - subst m. cbn [mc_px mc_off mk_cool]. repeat split; reflexivity.
+  - apply groupby_agg_perm. intros. now apply sum_rows_perm.
+  - apply groupby_agg_two_level. apply sum_rows_decomp.
+  - destruct (unordered_edges (length chunks) mm) eqn:Ee; [|exact I].
+    pose proof (unordered_edges_ok (length chunks) mm) as HA. rewrite Ee in HA. apply HA.
+    destruct chunks; [contradiction|cbn; lia].
+Qed.
+
+(** input-order independence for any value type and any permutation-invariant aggregation function *)
+Corollary merge_order_independent_gen {V} (agg : list V -> V) n (inputs inputs' : list (mcool V)) buf buf' :
+  (forall vs vs', Permutation vs vs' -> agg vs = agg vs') ->
+  Permutation inputs inputs' ->
+  inputs <> [] -> (1 <= n)%nat -> Forall (ValidIn n) inputs -> 0 <= buf -> 0 <= buf' ->
+  merged_px agg inputs buf = merged_px agg inputs' buf'.
+Proof.
+  intros HA HP Hne Hn HV Hb Hb'.
+  assert (Hne' : inputs' <> []) by (intros ->; apply Permutation_sym, Permutation_nil in HP; contradiction).
+  assert (HV' : Forall (ValidIn n) inputs') by (eapply Permutation_Forall; eauto).
+  rewrite !(merger_groupby agg n) by auto. f_equal.
+  apply groupby_agg_perm; [exact HA|]. unfold allpx. apply permutation_concat. now apply Permutation_map.
 Qed.
